@@ -70,7 +70,20 @@ var lmdpDesc = &lmDesc{
 	},
 }
 
-func (lmdp) Run(c Case) Result { return lmRun(lmdpDesc, c) }
+var lmdpDecf = lsDecfCfg{d: lmdpDesc, lt: layers.LayerTypeMDP, next: func(l gopacket.Layer, b *lmBuilder) string {
+	m := l.(*layers.MDP)
+	if b.next == gopacket.Decoder(m.Type.LayerType()) {
+		return fmt.Sprintf("t%d", uint16(m.Type))
+	}
+	return fmt.Sprintf("other%v", b.next)
+}}
+
+func (lmdp) Run(c Case) Result {
+	if lsHasDecf(c) {
+		return lsRunDecf(lmdpDecf, c)
+	}
+	return lmRun(lmdpDesc, c)
+}
 
 // mdpFacts: G facts for every (offset, length octet) position of a packet whose type octet selects a parsed text
 func mdpFacts(seen map[string]bool, data []byte) (out []string) {
@@ -219,6 +232,12 @@ func (lmdp) Gen(rng *rand.Rand, tier string) []Case {
 				bad := mdpBuild(rng, append(full(), mdpTLV{3, 200, []byte("x")}), false, 0)
 				add("tag:residue-after-error-fields", "dec2:"+lnHex(bad)+","+lnHex(mdpBuild(rng, tlvs(1), true, 0)))
 			}
+			// the registered decoder decodeMDP on valid, cut and malformed frames
+			for i := 0; i < 40; i++ {
+				q := valid(rng)
+				add("decf:" + lnHex(q))
+				add("tag:truncated-prefix-of-valid", "decf:"+lnHex(q[:rng.Intn(len(q)+1)]))
+			}
 			// end marker: items after it are ignored
 			p := mdpBuild(rng, []mdpTLV{{2, -1, []byte("a")}}, true, 0)
 			p = append(p, 3, 1, 'b', 4, 200)
@@ -238,7 +257,7 @@ func (lmdp) Gen(rng *rand.Rand, tier string) []Case {
 			switch name {
 			case "rt", "rtn":
 				isRt = true
-			case "dec", "ser":
+			case "dec", "ser", "decf":
 				facts = append(facts, mdpFacts(seen, lnUnhex(a[0]))...)
 			case "dec2":
 				facts = append(facts, mdpFacts(seen, lnUnhex(a[0]))...)
